@@ -22,7 +22,14 @@ pub fn silence_panics() {
 pub fn run_apply(rule: &Value, data: &Value) -> Outcome {
     verif::set_enabled(true);
     let _ = verif::take_events();
-    let res = panic::catch_unwind(|| jsonlogic_rs::apply(rule, data));
+    // an error is a VALUE: rendering it (Display and Debug, what the CLI, the Python module and any caller do
+    // with it) belongs to the call, so a panic while rendering is a crash of the call
+    let res = panic::catch_unwind(|| {
+        jsonlogic_rs::apply(rule, data).map_err(|e| {
+            let _ = format!("{}", e);
+            format!("{:?}", e)
+        })
+    });
     let events = verif::take_events();
     let log: Vec<Value> = events
         .iter()
@@ -34,8 +41,7 @@ pub fn run_apply(rule: &Value, data: &Value) -> Outcome {
     match res {
         Ok(Ok(v)) => Outcome { ok: true, v, log, events, crash: None },
         // an error carries the name of its variant of the public error enumeration (first identifier of its Debug form)
-        Ok(Err(e)) => {
-            let dbg = format!("{:?}", e);
+        Ok(Err(dbg)) => {
             let name: String = dbg.chars().take_while(|c| c.is_ascii_alphanumeric() || *c == '_').collect();
             Outcome { ok: false, v: Value::String(name), log, events, crash: None }
         }
